@@ -22,6 +22,19 @@ int main(int argc, char **argv) {
     elem_t alpha = kind_val((int)p2, "alpha"), beta = kind_val((int)p3, "beta");
     elem_t *x = (elem_t *)malloc(sizeof(elem_t) * (ldb * nrhs + 1)), *x0 = (elem_t *)malloc(sizeof(elem_t) * (ldb * nrhs + 1)), *y = (elem_t *)malloc(sizeof(elem_t) * (ldc * nrhs + 1)), *y0 = (elem_t *)malloc(sizeof(elem_t) * (ldc * nrhs + 1));
     for (int j = 0; j < nrhs; j++) { for (int i = 0; i < ldb; i++) { snprintf(nm, sizeof nm, "x%d_%d", i, j); x[j * ldb + i] = x0[j * ldb + i] = e_sym(nm); } for (int i = 0; i < ldc; i++) { snprintf(nm, sizeof nm, "y%d_%d", i, j); y[j * ldc + i] = y0[j * ldc + i] = e_sym(nm); } }
+    if (mode == 1 && ((int)p4 != 1 || ((int)p5 != 0 && (int)p5 != 1))) {
+      /* strided vectors: the no-transpose form implements any incx (incy = 1), the transposed forms any incy (incx = 1); negative increments run backwards from the far end */
+      int incx = (int)p4, incy = (int)p5 ? (int)p5 : 1, ax = incx < 0 ? -incx : incx, ay = incy < 0 ? -incy : incy; int nx = 1 + (lenx - 1) * ax + 2, ny = 1 + (leny - 1) * ay + 2;
+      elem_t *xs = (elem_t *)malloc(sizeof(elem_t) * nx), *xs0 = (elem_t *)malloc(sizeof(elem_t) * nx), *ys = (elem_t *)malloc(sizeof(elem_t) * ny), *ys0 = (elem_t *)malloc(sizeof(elem_t) * ny);
+      for (int i = 0; i < nx; i++) { snprintf(nm, sizeof nm, "xs%d", i); xs[i] = xs0[i] = e_sym(nm); } for (int i = 0; i < ny; i++) { snprintf(nm, sizeof nm, "ys%d", i); ys[i] = ys0[i] = e_sym(nm); }
+      SPF(gemv)(tr, alpha, &A, xs, incx, beta, ys, incy);
+      int kx = incx > 0 ? 0 : (lenx - 1) * ax, ky = incy > 0 ? 0 : (leny - 1) * ay; unsigned char touched[64] = {0};
+      for (int i = 0; i < leny; i++) { int iy = ky + i * incy; touched[iy] = 1; elem_t sacc = e_mul(beta, ys0[iy]); real_t sc = e_abs1(sacc);
+        for (int k = 0; k < lenx; k++) { int nz = notran ? S.D.nz[i][k] : S.D.nz[k][i]; if (!nz) continue; elem_t a = notran ? S.D.a[i][k] : S.D.a[k][i]; if (conj) a = e_conj(a); elem_t t = e_mul(alpha, e_mul(a, xs0[kx + k * incx])); sacc = e_add(sacc, t); sc += e_abs1(t); }
+        e_assert_zero(e_sub(ys[iy], sacc), (double)sc, "C14.gemv.strided.y=alpha*op(A)x+beta*y"); }
+      for (int i = 0; i < ny; i++) if (!touched[i]) e_assert_same(ys[i], ys0[i], "C14.gemv.strided.gaps-and-surroundings.untouched");
+      for (int i = 0; i < nx; i++) e_assert_same(xs[i], xs0[i], "C14.only-output-written.x");
+      slusym_done(); return 0; }
     if (mode == 1) SPF(gemv)(tr, alpha, &A, x, 1, beta, y, 1);
     else { char tb[2] = {'N', 0}; SPF(gemm)(tr, tb, leny, nrhs, lenx, alpha, &A, x, ldb, beta, y, ldc); }
     for (int j = 0; j < nrhs; j++) { for (int i = 0; i < leny; i++) { elem_t s = e_mul(beta, y0[j * ldc + i]); real_t sc = e_abs1(s);
